@@ -215,6 +215,7 @@ def dumps(kind, slots=(0, 1, 2, 3)):
             out.append("%s keys %d" % (kind, s))
         else:
             out.append("%s raw %d" % (kind, s))
+        out.append("%s walk %d" % (kind, s))
     return out
 
 
@@ -516,6 +517,17 @@ def gen(rng, tier):
             for rep in range(1 if q else 4):
                 a0 = sh[0] + rng.randrange(0, 3)
                 cases.append(growth(rng, kind, n, start, removes=rng.choice([0.0, 0.05]), shared=(a0, sh[1] + rng.randrange(0, 5))))
+    # 6. nextPoT itself (0, 1, negatives, every power of two and its neighbours up to 2^30, random; a few out of range
+    #    or malformed) and explicit-Enumerator walks after histories with removes
+    pots = [-4, -1, 0, 1, 2, 3] + [v for e in range(1, 31) for v in ((1 << e) - 1, 1 << e, (1 << e) + 1)]
+    pots += [rng.randrange(1, 1 << rng.randrange(1, 31)) for _ in range(40 if q else 400)]
+    pots += [(1 << 30) + 1, -5, 1 << 31]
+    cases.append(["hi pot %d %d" % (rng.randrange(4), z) for z in pots] + ["hi pot 0", "hi set 0 1 1", "hi walk 0"])
+    for kind in ORDERED + HASHED + SETS:
+        for i in range(30 if q else 400):
+            c = history(rng, kind, rng.choice([12, 25, 50]))
+            c += ["%s walk %d" % (kind, s) for s in range(4)]
+            cases.append(c)
     cases.append(growth(rng, "hi", 1900, None, removes=0.02))
     cases.append(growth(rng, "ss", 1850, 256, removes=0.0))
     if not q:
@@ -528,7 +540,7 @@ def gen(rng, tier):
 
 
 MUT = ("dup", "initasg", "asgfrom", "share", "addself", "set", "asg", "idx", "rem", "ins", "from", "addset", "add", "clear", "union", "inter", "diff", "clone")
-OBS = ("find", "has", "get", "cidx", "dump", "keys", "eq", "len", "cont", "any", "union", "inter", "diff", "idx")
+OBS = ("walk", "raw", "pot", "find", "has", "get", "cidx", "dump", "keys", "eq", "len", "cont", "any", "union", "inter", "diff", "idx")
 
 
 def nontrivial(case):
@@ -666,7 +678,7 @@ def layout_stats(cases):
                     for k in x.enum():
                         if (k in ys) == (op == "inter"): nt.index(k, st)
                 sl[s] = nt
-            elif op == "raw": st["raw_observations"] += 1
+            elif op in ("raw", "walk"): st["raw_observations"] += 1
     return st
 
 
@@ -728,7 +740,7 @@ def simulate(case):
             elif op == "from": sl[s] = {_k(kind, x): 1 for x in t[3:]}; out.append("ok %d" % len(sl[s]))
             elif op == "addset": a.update(dict(sl[int(t[3]) % 4])); out.append("ok %d" % len(a))
             elif op == "addself": out.append("ok %d" % len(a))
-            elif op == "raw": out.append(("raw", sorted(_ks(kind, k) for k in a)))
+            elif op in ("raw", "walk"): out.append(("raw", sorted(_ks(kind, k) for k in a)))
             elif op == "eq": out.append("1" if set(a) == set(sl[int(t[3]) % 4]) else "0")
             elif op == "cont": out.append("1" if set(sl[int(t[3]) % 4]) <= set(a) else "0")
             elif op == "any": out.append("1" if set(sl[int(t[3]) % 4]) & set(a) else "0")
@@ -766,11 +778,14 @@ def simulate(case):
         elif op == "clone": sl[int(t[3]) % 4] = dict(a); out.append("ok %d" % len(a))
         elif op == "add": a.update(dict(sl[int(t[3]) % 4])); out.append("ok %d" % len(a))
         elif op == "addself": out.append("ok %d" % len(a))
-        elif op == "raw": out.append(("raw", sorted("%s:%s" % (_ks(kind, k), VS(a[k])) for k in a)))
+        elif op in ("raw", "walk") and not ordered: out.append(("raw", sorted("%s:%s" % (_ks(kind, k), VS(a[k])) for k in a)))
+        elif op == "pot" and not ordered:
+            z = int(t[3]) if len(t) == 4 else -99
+            out.append("bad-op" if z < -4 or z > 1 << 30 else str(0 if z < 1 else 1 << (z - 1).bit_length()))
         elif op == "eq": out.append("1" if a == sl[int(t[3]) % 4] else "0")
         elif op == "len": out.append(str(len(a)) + ((" empty" if not a else " nonempty") if ordered else ""))
         elif op == "keys": out.append(" ".join([str(len(a))] + [_ks(kind, k) for k in sorted(a)]))
-        elif op == "dump":
+        elif op == "dump" or (op == "walk" and ordered):
             ks = sorted(a) if ordered else sorted(a, key=_sortkey(kind))
             out.append(" ".join([str(len(a))] + ["%s:%s" % (_ks(kind, k), VS(a[k])) for k in ks]))
         else: out.append("bad-op")
